@@ -200,6 +200,8 @@ pub fn cfg_error_code(e: &CfgError) -> &'static str {
         CfgError::DuplicateLabel(_) => "cfg-duplicate-label",
         CfgError::MultipleLabelsForReturn(..) => "cfg-multiple-labels-for-return",
         CfgError::NoLabelForReturn(_) => "cfg-no-label-for-return",
+        CfgError::LabelWithoutInstruction(_) => "cfg-label-without-instruction",
+        CfgError::FunctionWithoutReturn(_) => "cfg-function-without-return",
         CfgError::UnexpectedError => "cfg-unexpected-error",
         CfgError::AssertionError => "cfg-assertion-error",
     }
